@@ -169,7 +169,34 @@ void check_lookup(orc::Rng& rng, long cases, long draws)
             gen::Game g = gen::random_game(rng, b, int(rng.below(30)), pol, "book");
             for (const orc::Move& m : g.moves) b = b.after(m);
         }
+        bool backrank = (c % 8) == 7;
+        if (backrank)
+        {
+            // a rook or queen (not the king) on e1/e8 of the side to move, sliding along the back rank to the a/c/g/h file:
+            // these records look like castling records and must NOT be decoded as castling
+            Board t = gen::synth(rng, gen::T_SPARSE);
+            int hr = t.stm == orc::WHITE ? 0 : 7;
+            int e = orc::sq_of(4, hr);
+            if (orc::kind_of(t.sq[e]) == orc::KING) continue;
+            for (int f = 0; f < 8; ++f)
+                if (orc::kind_of(t.sq[orc::sq_of(f, hr)]) != orc::KING) t.sq[orc::sq_of(f, hr)] = orc::EMPTY;
+            t.sq[e] = orc::make_pc(t.stm, rng.below(2) ? orc::ROOK : orc::QUEEN);
+            t.castle = 0;
+            t.ep = -1;
+            if (!t.retro_legal()) continue;
+            b = t;
+        }
         std::vector<orc::Move> legal = b.legal();
+        if (backrank)
+        {
+            int hr = b.stm == orc::WHITE ? 0 : 7;
+            std::vector<orc::Move> br;
+            for (const orc::Move& m : legal)
+                if (m.from == orc::sq_of(4, hr) && orc::rank_of(m.to) == hr && (orc::file_of(m.to) == 0 || orc::file_of(m.to) == 2 || orc::file_of(m.to) == 6 || orc::file_of(m.to) == 7)) br.push_back(m);
+            if (br.empty()) continue;
+            legal = br;
+            rec.count("book-move:non-king-from-e1/e8-along-back-rank");
+        }
         if (legal.empty()) continue;
         // prefer special moves so that decoding is exercised
         std::stable_sort(legal.begin(), legal.end(), [&](const orc::Move& x, const orc::Move& y) {
